@@ -212,6 +212,11 @@ func vfRunDial(rec *vfRec, sc map[string]any) {
 	d.DialFunc = func() (*DialContext, error) {
 		dctx, err := inner()
 		w.inDial = false
+		if err == nil && dctx == nil {
+			// neither a connection nor an error: recorded as such (the Dialer itself would hand nil to the task)
+			rec.emit("dial", "res", "nilctx", "k", 0)
+			return nil, errors.New("vf: dial returned neither a connection nor an error")
+		}
 		cls := vfErrClass(err)
 		if err != nil {
 			rec.emit("dial", "res", cls, "k", 0)
@@ -219,6 +224,10 @@ func vfRunDial(rec *vfRec, sc map[string]any) {
 		}
 		k := w.nsock
 		if c, ok := dctx.Conn.(*VFNDPConn); ok {
+			if c == nil { // a context around a connection that was never opened
+				rec.emit("dial", "res", "nilctx", "k", 0)
+				return nil, errors.New("vf: dial returned a context without a connection")
+			}
 			k = c.ID
 		}
 		curK = k
